@@ -72,7 +72,7 @@ UNITS = [
 VERIFIED_CALLEES = ()
 LEVEL = "other"
 TECHNIQUE = "contract-based deductive verification of the clash-mark string helpers (z3/cvc5 strings) + bounded model-based run-time contract checking of every Namespace operation against a nested-dict reference"
-LEVEL_TEXT = "under construction"
+LEVEL_TEXT = "Proved for all strings: del_clash_mark(add_clash_mark(k)) == k, a marked name is never a method name, marking is injective on user keys - the mechanism that makes method-name keys storable. The mapping algebra itself (heap-allocated shared object graph, generator-based items) is outside the verifier's reach: bounded model-based checking of every Namespace operation against a nested-dict reference (all histories of length <= 4 over 75 operations, 1.9M evaluations)."
 LEVEL_NOTE = "under construction"
 EXPLANATION = "under construction"
 ASSUMPTIONS = []
